@@ -160,22 +160,20 @@ Definition strands (find_gaps : bool) (rs : list mres) : list (str * str) := str
 
 (* extended rows: per LW class (in enum order) first-fit rows in which each nucleotide has at most one partner;
    a pair listed twice is written once *)
+Definition fits_row (p : lpair) (row : list lpair) : bool :=
+  negb (existsb (fun q => (l_i q =? l_i p) || (l_j q =? l_i p) || (l_i q =? l_j p) || (l_j q =? l_j p)) row).
+Fixpoint place (p : lpair) (rws : list (list lpair)) : list (list lpair) :=
+  match rws with
+  | [] => [[p]]
+  | row :: t => if fits_row p row then (row ++ [p]) :: t else row :: place p t
+  end.
+Definition rows_step (acc : list (list lpair) * list (nat * nat)) (p : lpair) : list (list lpair) * list (nat * nat) :=
+  if existsb (fun s => (fst s =? l_i p) && (snd s =? l_j p)) (snd acc) then acc
+  else (place p (fst acc), (l_i p, l_j p) :: snd acc).
+Definition class_pairs (rs : list mres) (lifted : list lpair) (lw : str) : list lpair :=
+  filter (fun p => str_eqb (l_lw p) lw && lt_idx rs (l_i p) (l_j p)) lifted.
 Definition rows_of_class (rs : list mres) (lifted : list lpair) (lw : str) : list (list lpair) :=
-  let mine := filter (fun p => str_eqb (l_lw p) lw && lt_idx rs (l_i p) (l_j p)) lifted in
-  let '(rows, _) :=
-    fold_left (fun (acc : list (list lpair) * list (nat * nat)) p =>
-                 let '(rows, seen) := acc in
-                 if existsb (fun s => (fst s =? l_i p) && (snd s =? l_j p)) seen then acc
-                 else
-                   let seen' := (l_i p, l_j p) :: seen in
-                   let fits (row : list lpair) := negb (existsb (fun q => (l_i q =? l_i p) || (l_j q =? l_i p) || (l_i q =? l_j p) || (l_j q =? l_j p)) row) in
-                   let fix place (rws : list (list lpair)) : list (list lpair) :=
-                     match rws with
-                     | [] => [[p]]
-                     | row :: t => if fits row then (row ++ [p]) :: t else row :: place t
-                     end in
-                   (place rows, seen')) mine ([], []) in
-  rows.
+  fst (fold_left rows_step (class_pairs rs lifted lw) ([], [])).
 
 Definition extended_rows (find_gaps : bool) (rs : list mres) (ps : list ipair) : list (str * list (nat * str * nat)) :=
   let lifted := lift ps in
